@@ -1049,6 +1049,7 @@ def search(ctx):
                     ctx.fail(sig, what, {"case": c})
     ctx._c07_searched = True
     generic_option_space(ctx, dfols, seen_sig)
+    defaults_sweep(ctx, dfols, seen_sig)
     prev = ctx.cov.get("search", {})
     ctx.cov["search"] = {"solve_calls": ran + prev.get("solve_calls", 0), "by_expectation": stats, "failing_signatures": outcomes,
                          "cases_skipped_time_budget": skipped_budget, "cases_skipped_boundary_value_already_failing": skipped_culprit, "documented_flags": DOCUMENTED_FLAGS,
@@ -1120,8 +1121,63 @@ def generic_option_space(ctx, dfols, seen_sig):
     ctx.cov["generic_option_space"] = stats
 
 
+def defaults_sweep(ctx, dfols, seen_sig, only=None):
+    """every parameter key passed EXPLICITLY with its own default value (a value in the documented domain), on an over-determined, a
+    square and an under-determined problem (m < n switches the default growing method, which re-sets parameters the user may have
+    set: seeded change C07_13), with and without `objfun_has_noise`: solve must return a result, never raise"""
+    import traceback
+    stats = {"calls": 0, "raised": 0}
+    for shape, (n, m) in (("over", (2, 4)), ("square", (3, 3)), ("under", (4, 2))):
+        rng = np.random.default_rng([ctx.seed, 7071, n, m])
+        A = rng.normal(size=(m, n))
+        b = rng.normal(size=m)
+        x0 = rng.normal(size=n)
+        for noise in (False, True):
+            pl = dfols.params.ParameterList(n, n + 1, 30, objfun_has_noise=noise)
+            for key, val in sorted(pl.params.items()):
+                if val is None:
+                    continue
+                tag = "%s|%s|%s" % (shape, "noise" if noise else "plain", key)
+                if only is not None and tag != only:
+                    continue
+                np.random.seed(11)
+                try:
+                    core.with_alarm(30, dfols.solve, lambda x: A.dot(x) - b, x0.copy(), maxfun=12, do_logging=False, objfun_has_noise=noise,
+                                    user_params={key: val})
+                    exc = None
+                except core.Alarm:
+                    exc = None          # (a slow configuration is the generic suite's business)
+                except BaseException as e:
+                    exc = e
+                stats["calls"] += 1
+                ctx.seen(("c07defaults", tag))
+                if exc is not None:
+                    stats["raised"] += 1
+                    tb = traceback.extract_tb(exc.__traceback__)
+                    site = next(("%s:%s" % (fr.filename.split("/")[-1], fr.name) for fr in reversed(tb) if "/dfols/" in fr.filename), "outside-dfols")
+                    sig = "C07:defaults:raises:%s:%s:%s" % (type(exc).__name__, site, key)
+                    if sig not in seen_sig:
+                        seen_sig.add(sig)
+                        ctx.fail(sig, "solve raised %s: %s with user_params={%r: %r} (its own default) on a %s problem (n=%d, m=%d)"
+                                 % (type(exc).__name__, str(exc)[:100], key, val, shape, n, m), {"defaults_case": tag, "defaults_seed": ctx.seed})
+    ctx.cov["every_key_at_its_default"] = stats
+
+
 def replay(payload):
     rp = payload.get("replay", {})
+    if rp.get("defaults_case"):
+        dfols = core.import_dfols()
+
+        class _C:
+            seed = rp["defaults_seed"]
+            cov = {}
+            fails = []
+            def seen(self, *a): pass
+            def fail(self, sig, what, r): self.fails.append((sig, what))
+        c = _C()
+        defaults_sweep(c, dfols, set(), only=rp["defaults_case"])
+        print("replay:", c.fails if c.fails else "property holds on this input now")
+        return 1 if c.fails else 0
     if rp.get("generic_seed"):
         import solve_suite as ss
         dfols = core.import_dfols()
